@@ -114,3 +114,10 @@ Theorem C26_ok_accepts_etcd_model : forall ttls ops,
   ok (mkCase BEtcd ttls ops (model_obs (mkCase BEtcd ttls ops nil))) = true.
 Proof. exact ok_accepts_etcd_model. Qed.
 Print Assumptions C26_ok_accepts_etcd_model.
+
+Theorem C26_ok_accepts_etcd_loops_bounded3 :
+  forallb (fun ops => orb (negb (ew_legal (e_start3, None) ops)) (ok_on_model BEtcdW (1%Z :: 1%Z :: 1%Z :: nil) ops)) (schedules3 4) = true /\
+  forallb (fun ops => orb (negb (er_legal WRun e_obs2 (e_start3, None) ops)) (ok_on_model BEtcdR (1%Z :: 1%Z :: 1%Z :: nil) ops)) (schedules3 4) = true /\
+  forallb (fun ops => orb (negb (er_legal WService e_obs2 (e_start3, None) ops)) (ok_on_model BEtcdS (1%Z :: 1%Z :: 1%Z :: nil) ops)) (schedules3 4) = true.
+Proof. exact ok_sound_on_etcd_loops_bounded3. Qed.
+Print Assumptions C26_ok_accepts_etcd_loops_bounded3.
